@@ -1173,7 +1173,12 @@ func (n *pkgNorm) renderRange(root ast.Node, rename map[types.Object]string, ext
 		from, to = n.offset(b.Lbrace)+1, n.offset(b.Rbrace)
 	}
 	src := n.src[n.fileOf(root.Pos())]
-	sort.Slice(edits, func(i, j int) bool { return edits[i].start < edits[j].start })
+	sort.SliceStable(edits, func(i, j int) bool {
+		if edits[i].start != edits[j].start {
+			return edits[i].start < edits[j].start
+		}
+		return edits[i].end < edits[j].end
+	})
 	var out bytes.Buffer
 	start := root.Pos()
 	if b, ok := root.(*ast.BlockStmt); ok {
@@ -1446,7 +1451,12 @@ func isAddressablePath(e ast.Expr) bool {
 func (n *pkgNorm) spliced(from, to token.Pos, edits []edit) string {
 	src := n.src[n.fileOf(from)]
 	a, b := n.offset(from), n.offset(to)
-	sort.Slice(edits, func(i, j int) bool { return edits[i].start < edits[j].start })
+	sort.SliceStable(edits, func(i, j int) bool {
+		if edits[i].start != edits[j].start {
+			return edits[i].start < edits[j].start
+		}
+		return edits[i].end < edits[j].end
+	})
 	var out bytes.Buffer
 	pos := a
 	for _, e := range edits {
@@ -1559,6 +1569,53 @@ func (n *pkgNorm) renderBody(c *callee, call *ast.CallExpr, rename map[types.Obj
 		first, last := r.Results[0], r.Results[len(r.Results)-1]
 		edits = append(edits, edit{n.offset(r.Pos()), n.offset(first.Pos()), "{ " + lhs + " = "})
 		edits = append(edits, edit{n.offset(last.End()), n.offset(r.End()), "; " + tail + " }"})
+	}
+	// ---- `a, b := f()` at the top level of the body re-uses a parameter or named result that is declared in
+	// the same scope. After inlining the body sits in a nested block, where the same statement would declare
+	// a new variable shadowing the bound one, so the results would never reach the caller: declare the
+	// genuinely new variables explicitly and assign.
+	for _, st := range body.List {
+		as, ok := st.(*ast.AssignStmt)
+		if !ok || as.Tok != token.DEFINE {
+			continue
+		}
+		reuses := false
+		for _, l := range as.Lhs {
+			if id, isID := l.(*ast.Ident); isID && n.info.Defs[id] == nil {
+				if _, renamed := rename[n.info.Uses[id]]; renamed {
+					reuses = true
+				}
+			}
+		}
+		if !reuses {
+			continue
+		}
+		qual, why := n.qualifierAt(call)
+		if why != "" {
+			return nil, why
+		}
+		var pre bytes.Buffer
+		for _, l := range as.Lhs {
+			id, isID := l.(*ast.Ident)
+			if !isID || id.Name == "_" {
+				continue
+			}
+			obj := n.info.Defs[id]
+			if obj == nil {
+				continue
+			}
+			t := obj.Type()
+			if hasUnexportedForeign(t, n.tpkg) {
+				return nil, "a redeclaring := introduces a variable of an unnameable type"
+			}
+			nm := id.Name
+			if nn, ok := rename[obj]; ok {
+				nm = nn
+			}
+			fmt.Fprintf(&pre, "var %s %s; _ = %s; ", nm, types.TypeString(t, qual), nm)
+		}
+		edits = append(edits, edit{n.offset(as.Pos()), n.offset(as.Pos()), pre.String()})
+		edits = append(edits, edit{n.offset(as.TokPos), n.offset(as.TokPos) + 2, "="})
 	}
 	// ---- deferred calls
 	var decls, tail bytes.Buffer
